@@ -122,8 +122,8 @@ func c17Params(a *mgmt.ControlArgs) enc.Component {
 	return enc.Component{Typ: enc.TypeGenericNameComponent, Val: p.Encode().Join()}
 }
 
-// send builds an Interest and injects it on face f; returns the Interest name.
-func (d *c17Daemon) send(f *c17Face, name enc.Name, cbp bool) enc.Name {
+// interestBody builds the value of an Interest element (fresh nonce, MustBeFresh, 10 s lifetime).
+func (d *c17Daemon) interestBody(name enc.Name, cbp bool) []byte {
 	d.nonce++
 	body := name.Bytes()
 	if cbp {
@@ -132,6 +132,12 @@ func (d *c17Daemon) send(f *c17Face, name enc.Name, cbp bool) enc.Name {
 	body = append(body, tlvwalk.TLV(0x12, nil)...)
 	body = append(body, tlvwalk.TLV(0x0a, []byte{byte(d.nonce >> 24), byte(d.nonce >> 16), byte(d.nonce >> 8), byte(d.nonce)})...)
 	body = append(body, tlvwalk.TLV(0x0c, []byte{0x27, 0x10})...)
+	return body
+}
+
+// send builds an Interest and injects it on face f; returns the Interest name.
+func (d *c17Daemon) send(f *c17Face, name enc.Name, cbp bool) enc.Name {
+	body := d.interestBody(name, cbp)
 	if f.conn != nil {
 		// a real remote peer: the bytes travel through the socket and the transport's receive loop
 		before := f.ls.NInInterests()
